@@ -1,10 +1,11 @@
 #!/bin/sh
 # re-confirm every seeded change against /repo's HEAD and re-run the checks it is filed under
+# usage: tools/reseed_all.sh [lanes]   (default 4 seeds at a time; every seed works in scratch worktrees of its own)
 cd /verif
-for d in seeded/*/; do
-  id=$(basename $d)
-  prop=$(python3 -c "import json;print(json.load(open('$d/meta.json'))['property'])")
-  checks=$(python3 -c "import json;print(' '.join(r['check'] for r in json.load(open('$d/meta.json'))['ran']))")
+lanes=${1:-4}
+ls -d seeded/*/ | xargs -P $lanes -I{} sh -c '
+  d={}; id=$(basename $d)
+  prop=$(python3 -c "import json;print(json.load(open(\"$d/meta.json\"))[\"property\"])")
+  checks=$(python3 -c "import json;print(\" \".join(r[\"check\"] for r in json.load(open(\"$d/meta.json\"))[\"ran\"]))")
   [ -z "$checks" ] && checks=$prop
-  python3 tools/seed.py $id seeded/$id $prop $checks 2>&1 | tail -1
-done
+  python3 tools/seed.py $id seeded/$id $prop $checks 2>&1 | tail -1 | cut -c1-300'
